@@ -128,6 +128,17 @@ func runC20(c *engine.Ctx) {
 			}
 		}
 	}
+	// values that a caller can put into a message although no decoder would produce them (a CP attribute type with
+	// the reserved top bit set, a TV attribute type with the format bit in it): whatever the encoder writes, the
+	// message is the caller's and stays as it is
+	if c.Mine() {
+		for _, ty := range []uint16{0x8001, 0xffff, 0x8000} {
+			mm := ref.Msg{H: univ.BaseHdr, P: []ref.Payload{{T: ref.PCP, B: 1, CP: []ref.CPAttr{{Type: 1, Val: []byte{1}}, {Type: ty, Val: univ.Pat(4, int(ty))}}}}}
+			c20Encode(c, c20Case{K: "encode", Name: fmt.Sprintf("CP.attrtype=%#x", ty), M: &mm})
+			m2 := ref.Msg{H: univ.BaseHdr, P: []ref.Payload{{T: ref.PSA, SA: []ref.Proposal{{Num: 1, Proto: 1, Tr: []ref.Transform{{Type: 1, ID: 12, HasAttr: true, TV: true, AType: ty, AValue: 128}, {Type: 2, ID: 5}}}}}}}
+			c20Encode(c, c20Case{K: "encode", Name: fmt.Sprintf("SA.attrtype=%#x", ty), M: &m2})
+		}
+	}
 	// the structured part of the sweeps (nested lists in unusual orders and shapes) through the encode-side clauses
 	si := 0
 	univ.Sweeps(c.Thorough(), func(name string, m ref.Msg, fits bool) {
@@ -159,7 +170,14 @@ func runC20(c *engine.Ctx) {
 				if len(m.P) > 1 && (si+b2int(role))%3 != 0 {
 					continue
 				}
-				c20Protect(c, c20Case{K: "protect", Name: name, M: &mm, Suite: si, Role: role})
+				// the header the caller built: flag combinations (incl. an Initiator flag that disagrees with the role,
+				// the Version flag, reserved bits) and version numbers rotate with suite and role
+				hm := m
+				hm.H.Flags = []uint8{0x08, 0x20, 0x00, 0x28, 0x10, 0xff, 0x18, 0x30, 0x01}[si]
+				if !role {
+					hm.H.Major, hm.H.Minor = []uint8{2, 2, 3, 15, 0, 1}[si%6], []uint8{0, 7, 0, 15, 0, 1}[si%6]
+				}
+				c20Protect(c, c20Case{K: "protect", Name: name, M: &hm, Suite: si, Role: role})
 				c20Unprotect(c, c20Case{K: "unprotect", Name: name, M: &mm, Suite: si, Role: role})
 			}
 		}
